@@ -92,7 +92,11 @@ type interpreter struct {
 	goroutines         int32                  // atomically updated
 	x                  *Exec                  // symbolic execution context of this run
 	inited             map[*ssa.Package]bool  // packages whose initialiser has run (lazily)
+	sha                map[value]*[]byte      // SHA-256 digests (see intrinsics)
+	syncMaps           map[*value][]syncKV    // contents of sync.Map values (association lists, see intrinsics)
 }
+
+type syncKV struct{ k, v value }
 
 type deferred struct {
 	fn    value
@@ -588,6 +592,8 @@ func callSSA(i *interpreter, caller *frame, callpos token.Pos, fn *ssa.Function,
 // After a recovered panic in a function with NRPs, fr.result is
 // undefined and fr.block contains the block at which to resume
 // control.
+var debugPanics = os.Getenv("VERIF_DEBUG_PANIC") != ""
+
 func runFrame(fr *frame) {
 	defer func() {
 		if fr.block == nil {
@@ -612,6 +618,9 @@ func runFrame(fr *frame) {
 		}
 		if fr.i.mode&EnableTracing != 0 {
 			fmt.Fprintf(os.Stderr, "Panicking: %T %v.\n", fr.panic, fr.panic)
+		}
+		if debugPanics {
+			fmt.Fprintf(os.Stderr, "PANIC in %s: %T %v\n%s\n", fr.fn.String(), fr.panic, fr.panic, shortStack())
 		}
 		fr.runDefers()
 		fr.block = fr.fn.Recover
